@@ -1301,10 +1301,17 @@ def run_case(case):
 
 
 def _independent_fit_recovers(model, tbl, rows, s, o, data, mask, error, bx, by, txo, tyo, tfo, tol,
-                              shape_truth=None):
-    """Fit the group made of output rows `rows` from the initial values in the table, with own book-keeping."""
+                              shape_truth=None, _alt=False):
+    """Fit the group made of output rows `rows` from the initial values in the table, with own book-keeping.
+    Initial positions exactly on a pixel boundary admit two fit windows: the arbiter must then succeed with both."""
     from astropy.modeling.fitting import TRFLSQFitter
     fs = o['fit_shape']
+    if not _alt:
+        xin0, yin0 = _col(tbl, 'x_init'), _col(tbl, 'y_init')
+        if not (O.half_integer_free(xin0[rows]) and O.half_integer_free(yin0[rows])):
+            if not _independent_fit_recovers(model, tbl, rows, s, o, data, mask, error, bx, by, txo, tyo, tfo, tol,
+                                             shape_truth, _alt=True):
+                return False
     xin, yin, fin, lb = _col(tbl, 'x_init'), _col(tbl, 'y_init'), _col(tbl, 'flux_init'), _col(tbl, 'local_bkg')
     comp = None
     xs, ys, zs, ws = [], [], [], []
@@ -1320,6 +1327,9 @@ def _independent_fit_recovers(model, tbl, rows, s, o, data, mask, error, bx, by,
             getattr(m, yn).bounds = (float(yin[k]) - by, float(yin[k]) + by)
         comp = m if comp is None else comp + m
         f = O.window_facts(data, mask, fs, xin[k], yin[k])
+        if _alt:
+            f = O.window_facts(data, mask, fs, xin[k], yin[k], centre=(
+                f['cx'] - (0 if O.half_integer_free([xin[k]]) else 1), f['cy'] - (0 if O.half_integer_free([yin[k]]) else 1)))
         rr, cc = np.meshgrid(f['rows'], f['cols'], indexing='ij')
         good = f['good']
         xs.append(cc[good])
